@@ -46,6 +46,9 @@ class Conv:
 class SFld(Fld):
     undefined: bool = False  # annotated Union[t, UndefinedType]
     default_undefined: bool = False  # the default value is Undefined (set has_default=True)
+    # PEP 593 metadata put on the WHOLE annotation: Annotated[<t, or Union[t, UndefinedType]>, schema(**outer)]
+    # (Annotated around an Optional alone is Ann(Opt(t), cons) of model.py)
+    outer: Optional[Cons] = None
     default_as_set: bool = False  # metadata default_as_set
     conv: Optional[Conv] = None  # metadata conversion(serialization=...)
     skip_ser: bool = False  # metadata skip(serialization=True): never serialized
@@ -61,6 +64,7 @@ class SerM:
     alias: Optional[str] = None
     kind: str = "method"  # method | property | function
     undefined: bool = False  # return annotation Union[ret, UndefinedType]
+    outer: Optional[Cons] = None  # return annotation wrapped: Annotated[<ret or the union>, schema(**outer)]
     conv: Optional[Conv] = None  # serialized(conversion=...)
     on_error: Optional[str] = None  # serialized(error_handler=...): key of HANDLERS ("none": error_handler=None)
 
@@ -379,6 +383,7 @@ def _realize_sobj(td: SObj, realm: Realm):
     from apischema import serialized, serializer
     from apischema.fields import with_fields_set
     from apischema.types import UndefinedType
+    from apischema.typing import Annotated as _Annotated
 
     if td.name in realm.built:
         return realm.built[td.name]
@@ -409,6 +414,8 @@ def _realize_sobj(td: SObj, realm: Realm):
         tp = _rtype(f.t, realm)
         if getattr(f, "undefined", False):
             tp = typing.Union[tp, UndefinedType]
+        if getattr(f, "outer", None):
+            tp = _Annotated[tp, ap_schema(**dict(f.outer.kw))]
         kw: Dict[str, Any] = {}
         md = _field_metadata(f, realm)
         if md is not None:
@@ -446,6 +453,8 @@ def _realize_sobj(td: SObj, realm: Realm):
         ret = _rtype(sm.ret, realm)
         if sm.undefined:
             ret = typing.Union[ret, UndefinedType]
+        if sm.outer:
+            ret = _Annotated[ret, ap_schema(**dict(sm.outer.kw))]
         ns[f"_r_{td.name}_{sm.name}"] = ret
         ns[f"_b_{td.name}_{sm.name}"] = BODIES[sm.body]
         skw: Dict[str, Any] = {}
@@ -529,6 +538,17 @@ def tracks(td, realm: Realm) -> bool:
             return True
         td = realm.descs.get(getattr(td, "base", None))
     return False
+
+
+def field_type(f: Fld) -> TD:
+    """the described type of a field with every schema(...) constraint that applies to its values
+    (field-level schema and metadata on the whole annotation)"""
+    t = f.t
+    if getattr(f, "outer", None):
+        t = Ann(t, f.outer)
+    if f.cons:
+        t = Ann(t, f.cons)
+    return t
 
 
 def always_set(td: Obj) -> set:
